@@ -5,7 +5,7 @@ ALL = ["C%02d" % i for i in range(1, 19)]
 CHECKS = {
  # id: (engine, category, text, note, technique, design_ref)
  "C13": ("E1-enum", "exploration",
-         "Bounded-exhaustive: every (segment size, initial, end) in the property's own box, every index and block, against the set-cover definition of tiling; Split/Merged over all range lists in the box. The quantifier of the property is finite and is enumerated completely.",
+         "Bounded-exhaustive: every (segment size, initial, end) in the property's own box, every index and block, against the set-cover definition of tiling; Split/Merged over all range lists in the box; the range predicates and SortAndDedupe against plain arithmetic. The quantifier of the property is finite and is enumerated completely.",
          "Trusts the harness' set-cover reference; arithmetic far from uint64 overflow.",
          "bounded exhaustive enumeration of the real functions (explicit-state, complete within the stated box)", "3/C13"),
 }
@@ -18,11 +18,11 @@ CHECKS["C02"] = ("E1-enum", "exploration",
   "Trusts refmodel.Store; exactly representable numeric alphabet (float addition is not associative in general); in-memory dstore.",
   "bounded exhaustive enumeration of block sequences x segment cuts on the real stores (differential + reference model)", "3/C02")
 CHECKS["C09"] = ("E1-enum", "exploration",
-  "Bounded-exhaustive: every chain of 2 blocks of <=2 operations (thorough: 3 ordinals, + 3-block chains) for every policy/value type; the log recorded by a real execution is replayed with Reset+ApplyOps on a second store in the same pre-state; deltas compared one by one, content, size, and for partial stores DeletedPrefixes and the result of save+load+merge onto non-empty bases.",
+  "Bounded-exhaustive: every chain of 2 blocks of <=2 operations (thorough: 3 ordinals, + 3-block chains) for every policy/value type, and for the byte policies over the value alphabet that includes the zero-length value; the log recorded by a real execution is replayed with Reset+ApplyOps on a second store in the same pre-state; deltas compared one by one, content, size, and for partial stores DeletedPrefixes and the result of save+load+merge onto non-empty bases.",
   "Store-level half mirrors the cached branch (Reset + ApplyOps); the second half drives the real exec.RunModule with a real StoreModuleExecutor, live (operations issued in call order) and from a cached log.",
   "bounded exhaustive enumeration of operation-log chains, differential replay-vs-execution on the real stores", "3/C09")
 CHECKS["C11"] = ("E4-histx", "model_checking",
-  "Explicit-state BFS (depth 5, thorough 6+) over the histories of one real FullKV per policy/value type: apply block / undo with recorded deltas / merge partial / save+load, states deduplicated on content+size+reversible stack, invariant SizeBytes()==sum(len k+len v) in every state; plus exhaustive squash-chain and 12-byte-limit sweeps, plus the C03 fork histories through the real fork resolver and pipeline with the size oracle after every step. Every transition is a call into the real store.",
+  "Explicit-state BFS (depth 5, thorough 6+) over the histories of one real FullKV per policy/value type: apply block / undo with recorded deltas / merge partial / save+load, states deduplicated on content+size+reversible stack, invariant SizeBytes()==sum(len k+len v) in every state; plus exhaustive squash-chain and 12-byte-limit sweeps, a reload sweep (entries whose lengths straddle the 1/2/3-byte length prefixes saved, loaded and then written to at a limit equal to the content), plus the C03 fork histories through the real fork resolver and pipeline with the size oracle after every step. Every transition is a call into the real store.",
   "Menu of 4 blocks and 3 partials per combo; merges clear the reversible stack; limit sweep on canonical encodings only.",
   "explicit-state breadth-first search over store histories on the real implementation + bounded exhaustive sweeps", "2.4 E4, 3/C11")
 CHECKS["C10"] = ("E1-enum", "exploration",
@@ -30,7 +30,7 @@ CHECKS["C10"] = ("E1-enum", "exploration",
   "parseFileName is private: the name->range parse is judged through ListSnapshotFiles on a local dstore; most contents go through an in-memory dstore.",
   "bounded exhaustive enumeration of contents, names and snapshot sets on the real save/load/list code", "3/C10")
 CHECKS["C18"] = ("E1-enum", "exploration",
-  "Bounded-exhaustive cross-decoder check: every exec-out map of <=3 items over boundary field values and every store content of <=3 entries over boundary lengths, encoded by the hand-written encoders and decoded by google.golang.org/protobuf (and vice versa), plus self round-trips of all four store marshallers and the size reported on load.",
+  "Bounded-exhaustive cross-decoder check: every exec-out map of <=3 items over boundary field values and every store content of <=3 entries over boundary lengths, encoded by the hand-written encoders and decoded by google.golang.org/protobuf (and vice versa), plus self round-trips of all four store marshallers and the size reported on load, plus every ordered pair and triple of files of different sizes pushed through the same codec one after the other (state kept between calls).",
   "Trusts google.golang.org/protobuf as the wire-format reference.",
   "bounded exhaustive enumeration, differential between hand-written and generated/standard codecs", "3/C18")
 CHECKS["C12"] = ("E1-enum", "exploration",
@@ -42,7 +42,7 @@ CHECKS["C14"] = ("E1-enum", "exploration",
   "Graph alphabet: one binary, one policy, names a..h; n>=6 only through hand-made families.",
   "bounded exhaustive enumeration of module graphs on the real staging code", "3/C14")
 CHECKS["C17"] = ("E1-enum", "exploration",
-  "Bounded-exhaustive over structurally arbitrary request messages: the full product of per-field domains (each including 'absent') for one module, restricted products for two and three modules (duplicates, self/mutual/dangling references, cycles through inputs and filters) and the request-level fields; every message is round-tripped through the wire format and pushed through the real validation, graph construction, hashing, staging, resolution and planning; a panic, a 30 s hang or unbounded heap growth is a violation.",
+  "Bounded-exhaustive over structurally arbitrary request messages: the full product of per-field domains (each including 'absent') for one module, restricted products for two and three modules (duplicates, self/mutual/dangling references, cycles through inputs and filters) and the request-level fields (start and stop on both sides of mid-segment initial blocks, in both orders); every message is round-tripped through the wire format and pushed through the real validation, graph construction, hashing, staging, resolution and planning; a panic, a 30 s hang or unbounded heap growth is a violation.",
   "In-process with recover + watchdog + heap guard instead of the designed sub-process sharding.",
   "bounded exhaustive enumeration of request messages on the real validation/graph/plan code, crash and hang oracle", "3/C17")
 CHECKS["C06"] = ("E1-enum", "exploration",
@@ -54,7 +54,7 @@ CHECKS["C15"] = ("E1-enum", "exploration",
   "Whole-system half: the index and index2 (two index modules in one job) programs served by the real tier1+tier2 with the index files absent (built in the request), alone, with everything, missing while everything else is present, and present for one of two index modules only; compared with each other and with the per-block reference.",
   "bounded exhaustive enumeration of expressions x key assignments, differential between the two real evaluators", "3/C15")
 CHECKS["C04"] = ("E3-sysrun", "exploration",
-  "Bounded-exhaustive over request configurations on the whole system (real Tier1Service.blocks, real Tier2Service.processRange in-process, real hashes, scripted modules): mode x segment size x module initial blocks x start x stop x final block on three programs; range, order, duplicates, gaps at the hand-off, cursors, and a resumed request from the cursor of every delivered final block compared with the original suffix; plus the block source shutting down cleanly at every block (tier1 stream and segment jobs) and the response sink panicking on a block of the linear part: an error, never a silently truncated or gapped stream.",
+  "Bounded-exhaustive over request configurations on the whole system (real Tier1Service.blocks, real Tier2Service.processRange in-process, real hashes, scripted modules): mode x segment size x module initial blocks x start x stop x final block on four programs (one whose output module is not executed on most blocks); range, order, duplicates, gaps at the hand-off, cursors, and a resumed request from the cursor of every delivered final block compared with the original suffix; plus the block source shutting down cleanly at every block (tier1 stream and segment jobs) and the response sink panicking on a block of the linear part: an error, never a silently truncated or gapped stream.",
   "Goroutine timing inside one request is not controlled (E2 does that for the scheduler); one effective worker; fork-free chain; derr back-off and dstore zstd options overlaid for speed.",
   "bounded exhaustive enumeration of configurations, each executed on the real tier1+tier2 implementation", "3/C04")
 CHECKS["C01"] = ("E3-sysrun", "exploration",
@@ -66,11 +66,11 @@ CHECKS["C07"] = ("E3-sysrun", "fault_enumeration",
   "Goroutine timing inside a run is not controlled; files do not vanish during a request; equivalence is per file name, not per set of names.",
   "exhaustive enumeration of crash/eviction states (file subsets + torn writes) on the real implementation, differential against the clean run", "3/C07")
 CHECKS["C05"] = ("E2-schedx", "model_checking",
-  "Explicit-state model checking of the real scheduler: BFS over every delivery order of the scheduler's own messages and job bodies, on the real Scheduler/Stages/WorkerPool/Walker built by BuildParallelProcessor, with real tier2 jobs and real merges; grid configurations (1-2 store stages x 2-3 segments x 1-2 workers x empty/complete/partial-only/snapshot-hole caches; thorough: 3 stages x 4 segments, 3 workers), the configurations whose stores all start above the hand-off or later than the stores below, and every cache state of C07 universes (storemap: 128, samestage: 512 x the three outcomes of the squasher load race, samestage-0-3-0: 1024 in late-loader mode; thorough: 5 universes x 3 outcomes); merge bodies are events; safety in every state and on every transition (incl. the squasher in-memory store holds the content of the block it is labelled with), snapshot files at the end of the store range, unique terminal outcome compared with the sequential reference, deadlock and livelock (backward reachability) detection.",
+  "Explicit-state model checking of the real scheduler: BFS over every delivery order of the scheduler's own messages and job bodies, on the real Scheduler/Stages/WorkerPool/Walker built by BuildParallelProcessor, with real tier2 jobs and real merges; grid configurations (1-2 store stages x 2-3 segments x 1-2 workers x empty/complete/partial-only/snapshot-hole caches, every subset of the first segment's files of a two-stage graph; thorough: 3 stages x 4 segments, 3 workers), the configurations whose stores all start above the hand-off or later than the stores below, and every cache state of C07 universes (storemap: 128, samestage: 512 x the three outcomes of the squasher load race, samestage-0-3-0: 1024 in late-loader mode; thorough: 5 universes x 3 outcomes); merge bodies are events; safety in every state and on every transition (incl. the squasher in-memory store holds the content of the block it is labelled with), snapshot files at the end of the store range, unique terminal outcome compared with the sequential reference, deadlock and livelock (backward reachability) detection.",
   "loop.EventLoop.Run is bypassed; asynchronous squasher writes are drained after each event; the partial-vs-full load race is decided by a store wrapper (full wins / partial wins / partial wins and the losing load completes during a later merge); more than 2 identical pending wake-up messages are coalesced (cross-checked against the exact search with --cap 0).",
   "explicit-state BFS over the implementation's own transition function (stateful model checking on the real code, successors by replay)", "2.4 E2, 3/C05")
 CHECKS["C16"] = ("E3-sysrun", "fault_enumeration",
-  "Exhaustive enumeration of fault placements: every multiset of <=3 (thorough 4) transient faults over the (job, attempt) sites of a request x 4 fault kinds (+ as first or second fault: the worker answering Canceled, the worker cancelled right after a job's last block, the worker cancelled while a module's host call is in flight) on five programs (incl. a last stage fed from cached outputs, two modules in one layer, context-sensitive modules), and a deterministic module failure at every block in every module, both modes; jobs run through the real RemoteWorker (retry loop, classification) against the real tier2 processRange and the real error mappings of both tiers; streams compared with the fault-free run.",
+  "Exhaustive enumeration of fault placements: the worker's own block source ending cleanly after every block of four requests (followed by the same request on the same cache), and every multiset of <=3 (thorough 4) transient faults over the (job, attempt) sites of a request x 4 fault kinds (+ as first or second fault: the worker answering Canceled, the worker cancelled right after a job's last block, the worker cancelled while a module's host call is in flight) on five programs (incl. a last stage fed from cached outputs, two modules in one layer, context-sensitive modules), and a deterministic module failure at every block in every module, both modes; jobs run through the real RemoteWorker (retry loop, classification) against the real tier2 processRange and the real error mappings of both tiers; streams compared with the fault-free run.",
   "The gRPC transport is an in-process fake stream; goroutine timing inside a run is not controlled; back-off shortened by overlay.",
   "exhaustive enumeration of fault sequences injected at the worker transport of the real implementation", "3/C16")
 CHECKS["C03"] = ("E3-sysrun", "exploration",
